@@ -5,7 +5,10 @@ from wire import hx, opt, lst
 from chancommon import KIND, CASE_WALL, run_impl, shrink_candidates, classify_common  # noqa: F401
 
 SPECS = ["C05"]
-THEOREMS = ["C05.check_invariant", "C05.check_complete", "C05.check_sound", "C05.check_sound_lit", "C05.chk_invariant", "C05.chk_complete", "C05.chk_sound", "C05.windowSize_le", "C05.runOp_read", "C05.runOp_quiet", "C05.walk", "C05.c05_step", "C05.case_spec", "C05.case_spec_lit"]
+THEOREMS = ["C05.check_invariant", "C05.check_complete", "C05.check_sound", "C05.check_sound_lit", "C05.chk_invariant", "C05.chk_complete", "C05.chk_sound", "C05.windowSize_le", "C05.runOp_read", "C05.runOp_quiet", "C05.walk", "C05.c05_step", "C05.case_spec", "C05.case_spec_lit",
+            "C05Look.occurs", "C05Look.one_piece_missed", "C05Look.one_piece_violates_spec", "C05Look.split_noticed",
+            "C05Look.split_satisfies_spec", "C05Look.other_split_missed", "C05Look.not_PatOk"]
+LEAN_MODULES = ["TbotVerif.Props.C05", "TbotVerif.Props.C05Look"]
 QUICK_N, THOROUGH_N = 6000, 100000
 QUICK_BUDGET, THOROUGH_BUDGET = 40, 900
 RULE = ("1-3 death strings (literals of length 1-6, small regexes) registered at once / nested / added permanently; "
